@@ -128,6 +128,39 @@ theorem edits_independent : ∀ (es : List Edit) {H : Heap} {R1 R2 : Nat → Pro
     simp only [applyEdits]
     rw [ih hR2' hdis' hrest k a ha, hv k a ha]
 
+/-- **Adding to one tree a copy of a class of another tree** (`find_class(copy=True)` or
+    `copy.deepcopy`, then `add_class`) leaves every view of the tree the class was taken from
+    unchanged: the copy still names the original's parent, but `add_class` writes only the new
+    holder and the copy. -/
+theorem add_copy_independent (cfg : Cfg) (hg : cfg.Good) {H H1 : Heap} {RA : Nat → Prop}
+    (hRA : Region H RA) (hts : TreeShaped H RA) {c y : Nat} (hc : RA c) (hd : Detached H c)
+    (h1 : deepcopy cfg H c = some (H1, y)) (holder : Nat) (hh : ¬ RA holder) :
+    ∀ k a, RA a → view (applyEdit H1 (addClassEdit H1 holder y)) k a = view H k a := by
+  obtain ⟨st', hs, hheap⟩ := deepcopy_unfold h1
+  have out := deepcopySt_spec hRA hg hc hs
+  obtain ⟨ex, hex⟩ := out.frame
+  have hfresh : H.length ≤ y := by
+    have := (copy_ownReach_fresh out hts hd y (OwnReach.refl y)).1
+    exact this
+  have hRA1 : Region H1 RA := by rw [← hheap, hex]; exact hRA.append ex
+  have hy : ¬ RA y := fun h => by have := hRA.lt h; omega
+  have hconf : Confined H1 (fun i => ¬ RA i) (addClassEdit H1 holder y) := by
+    unfold Confined addClassEdit
+    cases H1[holder]? with
+    | none => intro w hw; cases hw
+    | some oh =>
+      cases H1[y]? with
+      | none => intro w hw; cases hw
+      | some oc =>
+        intro w hw
+        simp only [List.mem_cons, List.mem_nil_iff, or_false] at hw
+        rcases hw with hw | hw
+        · subst hw; exact Or.inl hh
+        · subst hw; exact Or.inl hy
+  intro k a ha
+  rw [edit_views hRA1 (fun a h1' h2 => h1' h2) hconf k a ha]
+  exact (copy_iso cfg hg hRA hc h1 k).2 a ha
+
 /-- **Copies of copies.**  Copy a tree, edit the copy in any way that leaves it a tree, copy the
     copy: the second copy unfolds like the *edited copy*, and the original still unfolds as it did
     before anything happened. -/
@@ -235,6 +268,22 @@ def secondGeneration (cfg : Cfg) : Option (List String × List String) :=
       | some (H3, z) => some (viewLabels H3 3 z, viewLabels H2 3 y)
 
 example : (match secondGeneration current with | some (l3, l2) => decide (l3 = l2) | none => false) = true := by
+  decide +kernel
+
+/-- copy class `A` of the tree and add the copy to class `C`: class `A` is still in the tree -/
+example : (match deepcopy current demo 1 with
+    | some (H1, y) => decide (lookupPath (applyEdit H1 (addClassEdit H1 4 y)) 0 ["A"] = some 1) &&
+        decide (lookupPath (applyEdit H1 (addClassEdit H1 4 y)) 0 ["C", "A"] = some y)
+    | none => false) = true := by
+  decide +kernel
+
+/-- **With move semantics in `add_class` the statement is false**: the copy still has the
+    original's parent, so the *original* `A` is popped from the tree it was copied from. -/
+theorem counterexample_add_class_moves :
+    (match deepcopy current demo 1 with
+     | some (H1, y) => decide (lookupPath (applyEdit H1 (addClassMoveEdit H1 4 y)) 0 ["A"] = none) &&
+         decide (viewLabels (applyEdit H1 (addClassMoveEdit H1 4 y)) 3 0 ≠ viewLabels demo 3 0)
+     | none => false) = true := by
   decide +kernel
 
 /-- the hooks before the fix: the copy's instance attribute is the bound method of the original -/
